@@ -14,7 +14,7 @@ out. The provable part is stated in Props.lean under the decidable exclusion `cf
 The witnesses below are exported as protocol lines (`Driver.witnessLines`) and replayed on the real code on
 every run.
 -/
-import CaddyModel.C15.Props
+import CaddyModel.C15.Spec
 
 namespace CaddyModel.C15
 
